@@ -29,7 +29,7 @@ ASSUMPTIONS = ['in the enumerated part the admitted set equals the assignable ge
                'geo-ratio bound evaluated in exact rational arithmetic of the float tolerance']
 EXHAUSTIVE = {'quick': True, 'thorough': True}
 MINIMA = {'quick': {'listings_interleaved_with_sibling': 100, 'settings': 4000, 'listings': 1200, 'search_bound_checks': 15, 'settings_with_dropped_geos': 100, 'large_settings': 100, 'distinct_nontrivial': 1500},
-          'thorough': {'listings_interleaved_with_sibling': 700, 'settings': 20000, 'listings': 6000, 'search_bound_checks': 100, 'settings_with_dropped_geos': 700, 'large_settings': 1000, 'distinct_nontrivial': 8000}}
+          'thorough': {'listings_interleaved_with_sibling': 700, 'settings': 19000, 'listings': 6000, 'search_bound_checks': 100, 'settings_with_dropped_geos': 700, 'large_settings': 1000, 'distinct_nontrivial': 8000}}
 MAXG = {'quick': 3, 'thorough': 4}
 N_RANDOM = {'quick': 96, 'thorough': 640}
 N_SEARCH = {'quick': 32, 'thorough': 160}
